@@ -577,6 +577,15 @@ impl SeedSpace {
                     }
                 }
             }
+            for a in 0..t.len() {
+                for b in a + 1..t.len() {
+                    for c in b + 1..t.len() {
+                        for d in c + 1..t.len() {
+                            subsets.push(vec![t[a], t[b], t[c], t[d]]);
+                        }
+                    }
+                }
+            }
         }
         subsets.push(t.to_vec());
         let mut versions: Vec<(&'static str, M2Version, u32)> = gen::VERSIONS.iter().map(|(n, v)| (*n, *v, v.to_header_version())).collect();
@@ -1006,18 +1015,18 @@ fn main() {
         c.tier.pick(1, 2),
         c.tier.pick("1 or 3 (or no)", "0, 1, 2, 3 or 8"),
         c.tier.pick("1 or 3", "1, 2, 3 or 5"),
-        c.tier.pick(2, 3),
+        c.tier.pick(2, 4),
         c.tier.pick(5, 8),
         c.tier.pick("", " + each singly next to the nine others populated without sharing"),
         c.tier.pick(5, 8),
         c.tier.pick("{1,3}", "{1,2,3,8}"),
         c.tier.pick("{3}", "{2,3,5}"),
         c.tier.pick("{same count}", "{same count, member is a prefix of the source, member is one element longer than the source}"),
-        c.tier.pick("full product of 5 sections x {empty,one,many} x 6 header layouts x conversions", "full product of 5 sections x {empty,one,many,300} plus every tuple over {empty,many} with one or two sections at 65537 elements, x 6 header layouts x conversions"),
-        c.tier.pick("", " (counts 0,1,2,3,17; keys 0,1,2,3,300)"),
+        c.tier.pick("full product of 5 sections x {empty,one,many} x 6 header layouts x conversions", "full product of 5 sections x {empty,one,many,300} plus every tuple over {empty,many} with one or two of indices/triangles/bone indices at 65537 elements, x 6 header layouts x conversions"),
+        c.tier.pick("", " (counts and keys 0,1,2,3,9)"),
         c.tier.pick(
             "",
-            " Thorough only: m2many: one or two of 28 sites at 17 / 300 elements (4335-character name, 300 textures with embedded names) on both baselines, 16 small-record sites also at 65537 elements, x 8 header numbers; m2chain: every model within <= 1 deviation converted from -> via -> to over all 125 triples x 2 entry points x source {built, reparsed}: content representable in all three versions must survive and the result must be a write→parse→write fixed point; seedchain: sparse / dense / shared key-frame seeds (10 sections singly + all) converted over all 125 triples; edit: load-edit-save: a parsed key-frame seed (sparse, dense, dense+shared; all sections + embedded skin profiles) whose static sections are replaced through the object API by every <= 2-deviation static population x 8 header numbers, written, decoded independently (static fields against the object, key frames against the seed), parsed, written again; odd: emitter records with plain sub-arrays (ribbon texture/material index lists, particle geometry model name / tile coordinates) and animated values with ranges but no keys."
+            " Thorough only: m2many: one or two of 28 sites at 17 / 300 elements (4335-character name, 300 textures with embedded names) on both baselines, 16 small-record sites also at 65537 elements, x 8 header numbers; m2chain: every model within <= 2 deviations converted from -> via -> to over all 125 triples x 2 entry points x source {built, reparsed}: content representable in all three versions must survive and the result must be a write→parse→write fixed point; seedchain: sparse / dense / shared key-frame seeds (10 sections singly + all) converted over all 125 triples; edit: load-edit-save: a parsed key-frame seed (sparse, dense, dense+shared; all sections + embedded skin profiles) whose static sections are replaced through the object API by every <= 2-deviation static population x 8 header numbers, written, decoded independently (static fields against the object, key frames against the seed), parsed, written again; odd: emitter records with plain sub-arrays (ribbon texture/material index lists, particle geometry model name / tile coordinates) and animated values with ranges but no keys."
         ),
     );
     c.assume("content equality is judged on the Debug rendering of the section vectors with every `offset:` value (recomputed by the writer) masked; NaN is not in the float pool (the parser documents that it replaces NaN pivots)");
@@ -1042,13 +1051,13 @@ fn main() {
     if c.tier == Tier::Thorough {
         c.extra_cov.insert(
             "thorough_axes".into(),
-            json!({"seed_header_numbers": 8, "seed_records": [1, 2, 3, 5], "seed_keys": [0, 1, 2, 3, 8], "seed_max_subset": 3,
+            json!({"seed_header_numbers": 8, "seed_records": [1, 2, 3, 5], "seed_keys": [0, 1, 2, 3, 8], "seed_max_subset": 4,
                    "share_header_numbers": 8, "share_records": [2, 3, 5], "share_keys": [1, 2, 3, 8], "share_section_choices": 21, "share_extents": 3,
                    "m2many_counts": [17, 300, 65537], "m2many_sites": 28, "m2many_huge_sites": 16,
-                   "m2chain_triples": 125, "m2chain_entry_points": 2, "m2chain_source_states": 2, "m2chain_max_deviations": 1,
+                   "m2chain_triples": 125, "m2chain_entry_points": 2, "m2chain_source_states": 2, "m2chain_max_deviations": 2,
                    "seedchain_triples": 125, "seedchain_seed_kinds": chain::SEED_KINDS, "seedchain_section_choices": 11,
                    "edit_seed_kinds": 3, "edit_header_numbers": 8, "edit_static_max_deviations": 2,
-                   "odd_kinds": odd::KINDS, "skin_levels": [0, 1, 3, 300, 65537], "anim_counts": [0, 1, 2, 3, 17], "anim_keys": [0, 1, 2, 3, 300]}),
+                   "odd_kinds": odd::KINDS, "skin_levels": [0, 1, 3, 300, 65537], "anim_counts": [0, 1, 2, 3, 9], "anim_keys": [0, 1, 2, 3, 9]}),
         );
     }
     c.finish();
